@@ -7,13 +7,10 @@
      - the standard properties are, slot for slot, those the frozen
        specification tables give a built-in type of the same family and
        version (kernel evaluation on Gen/SpecTables.v);
-     - the class refines itself in the sense of Spec/SchemaRefine.v, and the
-       side condition `world_refines` of the generic C02 theorem is preserved
-       when a fresh class and its registry row are added on both sides.
-   Only definitions of the schema family are used (SchemaTypes, SchemaRefine,
-   the generated tables); none of its proofs.                                *)
+   (the refinement part -- Spec/SchemaRefine.v -- is in Proofs/C19InheritRefine.v).
+   Only the TYPES of the schema family are used here (Model/SchemaTypes.v).   *)
 From Coq Require Import NArith ZArith List String Bool Arith Lia Permutation.
-From V Require Import Base.UString Base.Json Model.SchemaTypes Model.PyBase Spec.SchemaRefine Model.RegistryBuilder.
+From V Require Import Base.UString Base.Json Model.SchemaTypes Model.RegistryBuilder.
 From V Require Model.Registry.
 Import ListNotations.
 
@@ -37,6 +34,9 @@ Proof.
 Qed.
 
 Definition names (l : list slot) : list ustring := map sname l.
+
+(* the property of a class with a given name (what Spec/SchemaRefine.find_slot computes) *)
+Definition slot_named (c : cls) (n : ustring) : option slot := find (fun s => ustr_eqb (sname s) n) (cslots c).
 
 (* ---------------- OrderedDict ---------------- *)
 
@@ -327,9 +327,9 @@ Qed.
 Theorem standard_property_intact_lemma : forall bv k V n user s,
   (k = CObject \/ k = CObservable) ->
   In s (standard_slots bv k V n None) -> (forall t, In t user -> sname t <> sname s) ->
-  find_slot (custom_cls bv k V n None user (u "C")) (sname s) = Some s.
+  slot_named (custom_cls bv k V n None user (u "C")) (sname s) = Some s.
 Proof.
-  intros bv k V n user s K I D. unfold find_slot, custom_cls. cbn [cslots].
+  intros bv k V n user s K I D. unfold slot_named, custom_cls. cbn [cslots].
   apply find_self; [apply custom_slots_NoDup_lemma|].
   pose proof (standard_names_NoDup k V) as SN.
   rewrite <- (standard_names_indep bv k V n None) in SN by (destruct K; subst; discriminate).
@@ -347,66 +347,7 @@ Proof.
     + intros t It E. apply U; auto. unfold observable_pairs in It. rewrite !in_app_iff in It. rewrite in_app_iff. tauto.
 Qed.
 
-(* ---------------- a builder table refines itself (Spec/SchemaRefine.v) ---------------- *)
-
-Definition slot_kind_ok (s : slot) : bool := kind_refines (skind s) (skind s).
-
-Lemma ver_eqb_refl : forall v, ver_eqb v v = true.
-Proof. destruct v; reflexivity. Qed.
-
-Lemma standard_kinds_ok : forall bv k V n xt s, In s (standard_slots bv k V n xt) -> slot_kind_ok s = true.
-Proof.
-  intros bv k V n xt s I. unfold slot_kind_ok.
-  destruct bv as [[|]], k, V; simpl in I; try contradiction;
-    try (destruct xt as [x|]; simpl in I; try contradiction);
-    repeat (destruct I as [<- | I]; [simpl; rewrite ?ueqb_refl, ?ver_eqb_refl; try reflexivity|]); try contradiction.
-Qed.
-
-Lemma always_present_of_requires : forall c s, spec_requires c s = true -> always_present s = true.
-Proof.
-  intros c s H. unfold spec_requires, always_present in *.
-  destruct (sreq s); simpl in *; auto. destruct (sdef s); auto.
-Qed.
-
-Lemma flat_map_all_nil : forall {A B} (f : A -> list B) l, (forall x, In x l -> f x = []) -> flat_map f l = [].
-Proof.
-  induction l as [|a l IH]; simpl; intros H; auto.
-  rewrite (H a (or_introl eq_refl)), IH; auto.
-Qed.
-
-Lemma flat_map_nil_inv : forall {A B} (f : A -> list B) l x, flat_map f l = [] -> In x l -> f x = [].
-Proof.
-  induction l as [|a l IH]; simpl; intros x H Hin; [tauto|]. apply app_eq_nil in H. destruct H as [H1 H2].
-  destruct Hin as [-> | Hin]; auto.
-Qed.
-
-Lemma self_refines : forall c,
-  ccons c = [] -> cinit c = INone -> NoDup (names (cslots c)) -> forallb slot_kind_ok (cslots c) = true ->
-  class_refine_failures c c = [].
-Proof.
-  intros c HC HI ND HK. unfold class_refine_failures.
-  assert (HH : header_ok c c = true).
-  { unfold header_ok. rewrite ver_eqb_refl. destruct (ctype c) as [t|]; simpl; rewrite ?ueqb_refl; destruct (cfamily c); reflexivity. }
-  rewrite HH, HC, HI. simpl.
-  rewrite !flat_map_all_nil; auto.
-  - intros s' I. destruct (spec_requires c s') eqn:R; simpl; auto.
-    unfold find_slot. rewrite (find_self _ s' ND I). rewrite (always_present_of_requires c s' R). reflexivity.
-  - intros s I. unfold find_slot. rewrite (find_self _ s ND I).
-    rewrite forallb_forall in HK. specialize (HK s I). unfold slot_kind_ok in HK. rewrite HK. reflexivity.
-Qed.
-
-Theorem custom_refines_itself_lemma : forall bv k V n xt user cn,
-  forallb slot_kind_ok user = true ->
-  class_refine_failures (custom_cls bv k V n xt user cn) (custom_cls bv k V n xt user cn) = [].
-Proof.
-  intros. apply self_refines; try reflexivity.
-  - apply custom_slots_NoDup_lemma.
-  - apply forallb_forall. intros s I. cbn [custom_cls cslots] in I. apply custom_slots_In_lemma in I. destruct I as [I | I].
-    + eapply standard_kinds_ok. exact I.
-    + rewrite forallb_forall in H. apply H. exact I.
-Qed.
-
-(* ---------------- world_refines is preserved by adding a fresh class on both sides ---------------- *)
+(* ---------------- classes of a world ---------------- *)
 
 Lemma find_class_app_some : forall cs cs' id c, find_class cs id = Some c -> find_class (cs ++ cs') id = Some c.
 Proof.
@@ -420,55 +361,3 @@ Proof.
   destruct (ustr_eqb (cid a) id); try discriminate. auto.
 Qed.
 
-Lemma pairs_eqb_snoc : forall a b k v, pairs_eqb a b = true -> pairs_eqb (a ++ [(k, v)]) (b ++ [(k, v)]) = true.
-Proof.
-  induction a as [|[k1 v1] a IH]; destruct b as [|[k2 v2] b]; simpl; intros k v H; try discriminate.
-  - rewrite !ueqb_refl. reflexivity.
-  - apply andb_true_iff in H. destruct H as [H1 H2]. rewrite H1. simpl. apply IH. exact H2.
-Qed.
-
-Lemma registry_failures_nil : forall v a b, registry_failures v a b = [] <->
-  pairs_eqb (robjects a) (robjects b) = true /\ pairs_eqb (robservables a) (robservables b) = true /\
-  pairs_eqb (rextensions a) (rextensions b) = true /\ pairs_eqb (rmarkings a) (rmarkings b) = true.
-Proof.
-  intros. unfold registry_failures.
-  destruct (pairs_eqb (robjects a) (robjects b)), (pairs_eqb (robservables a) (robservables b)),
-           (pairs_eqb (rextensions a) (rextensions b)), (pairs_eqb (rmarkings a) (rmarkings b));
-    simpl; split; intros H; try discriminate; auto; destruct H as [? [? [? ?]]]; discriminate.
-Qed.
-
-Lemma registry_failures_add : forall v k a b n id,
-  registry_failures v a b = [] -> registry_failures v (reg_add k a n id) (reg_add k b n id) = [].
-Proof.
-  intros v k a b n id H. apply registry_failures_nil in H. destruct H as [H1 [H2 [H3 H4]]].
-  apply registry_failures_nil. destruct k; simpl; repeat split; auto; apply pairs_eqb_snoc; auto.
-Qed.
-
-Theorem world_refines_add_lemma : forall w sp k V n c c',
-  world_refines w sp = true ->
-  find_class (wclasses sp) (cid c) = None -> cid c' = cid c ->
-  class_refine_failures c c' = [] ->
-  world_refines (world_add w k V n c) (world_add sp k V n c') = true.
-Proof.
-  intros w sp k V n c c' H F E R.
-  unfold world_refines, refine_failures in *.
-  destruct (flat_map _ (wclasses w) ++ registry_failures V20 (wreg20 w) (wreg20 sp) ++ registry_failures V21 (wreg21 w) (wreg21 sp)) eqn:X;
-    try discriminate. clear H.
-  apply app_eq_nil in X. destruct X as [X1 X2]. apply app_eq_nil in X2. destruct X2 as [X2 X3].
-  assert (G : flat_map (fun lc => match find_class (wclasses (world_add sp k V n c')) (cid lc) with
-                                  | Some sc => class_refine_failures lc sc
-                                  | None => [FNoClass (cid lc)]
-                                  end) (wclasses (world_add w k V n c)) = []).
-  { cbn [world_add wclasses]. rewrite flat_map_app.
-    match goal with |- ?a ++ _ = [] => assert (P1 : a = []) end.
-    { apply flat_map_all_nil. intros lc I. pose proof (flat_map_nil_inv _ _ lc X1 I) as Y. simpl in Y.
-      destruct (find_class (wclasses sp) (cid lc)) as [sc|] eqn:Fc; [|discriminate].
-      rewrite (find_class_app_some _ _ _ _ Fc). exact Y. }
-    rewrite P1. simpl. rewrite app_nil_r. rewrite (find_class_app_none _ _ _ F). simpl. rewrite E, ueqb_refl. exact R. }
-  rewrite G.
-  assert (R20 : registry_failures V20 (wreg20 (world_add w k V n c)) (wreg20 (world_add sp k V n c')) = []).
-  { destruct V; simpl; auto. rewrite E. apply registry_failures_add. exact X2. }
-  assert (R21 : registry_failures V21 (wreg21 (world_add w k V n c)) (wreg21 (world_add sp k V n c')) = []).
-  { destruct V; simpl; auto. rewrite E. apply registry_failures_add. exact X3. }
-  rewrite R20, R21. reflexivity.
-Qed.
